@@ -90,6 +90,12 @@ def gen_spec(rng):
             for b in ("border_left", "border_right", "border_top", "border_bottom"):
                 spec[k].pop(b, None)
             spec[k]["as_table"] = rng.random() < 0.55
+        if rng.random() < 0.06:
+            # "no text" said with an empty list / empty string instead of leaving the component out: nothing is
+            # rendered, so the table still has to be closed on its last data row
+            spec[k] = {"text": rng.choice([[], ""])}
+            if rng.random() < 0.6:
+                spec[k]["as_table"] = True
     return spec
 
 
